@@ -23,3 +23,5 @@ import SpoxModel.Props.C13
 #print axioms C13.broadcastArg_sound
 #print axioms C13.canBroadcast_false_only_if_impossible
 #print axioms C13.broadcast_comm
+#print axioms C13.type_layer_inventory
+#print axioms C13.broadcast_rank
